@@ -2,11 +2,12 @@
 """Prints the seeded-change table (markdown) from /verif/seeded/*/meta.json."""
 import json, glob, os
 rows = []
+summ = json.load(open('/verif/tools/seed_summaries.json'))
 for d in sorted(glob.glob('/verif/seeded/*/')):
     m = json.load(open(d + 'meta.json'))
     name = os.path.basename(d.rstrip('/'))
     readme = open(d + 'README.md').read() if os.path.exists(d + 'README.md') else ''
-    what = m.get('summary') or ''
+    what = m.get('summary') or '; needs: '.join(summ.get(name, ['']))
     ran = m.get('checks_with_patch_applied', {})
     det = m.get('detected_by', [])
     missed = [c for c, r in ran.items() if r['exit'] != 1]
